@@ -118,6 +118,9 @@ PlainDecimal(text) ==
     IN  /\ Len(text) > 0 /\ Len(dots) <= 1
         /\ \A i \in 1..Len(text) : IsDigitCp(text[i]) \/ text[i] = 46
         /\ IsDigitCp(text[1]) /\ IsDigitCp(text[Len(text)])
+\* every character that can occur in some text accepted by a lenient decimal numeral reader
+DecimalChars == (48..57) \cup {43, 45, 46, 95, 69, 101} \cup IntWS
+                \cup {78, 110, 65, 97, 83, 115, 73, 105, 70, 102, 84, 116, 89, 121}      \* N A S I F T Y (NaN sNaN Infinity)
 DecimalOf(text) ==
     LET dots == SelectSeq(Ix(Len(text)), LAMBDA i : text[i] = 46)
         scale == IF dots = <<>> THEN 0 ELSE Len(text) - dots[1]
@@ -270,6 +273,9 @@ TypedValue(f, text) ==
             ELSE [st |-> "bad", v |-> ANY]
       [] f.py = "decimal" ->
             IF PlainDecimal(text) THEN [st |-> "strict", v |-> V("dec", DecimalOf(text))]
+            \* text that no numeral syntax could accept (a character outside digits, sign, point, exponent, underscore,
+            \* white space and the letters of NaN / sNaN / Infinity) is not convertible: must be refused
+            ELSE IF \E i \in 1..Len(text) : text[i] \notin DecimalChars THEN [st |-> "bad", v |-> ANY]
             ELSE [st |-> "lenient", v |-> ANY]
       [] f.py = "datetime" ->
             IF Len(text) = FmtW(f.fmt) /\ AllDigits(text)
